@@ -20,7 +20,7 @@ def hp(fields, expl, extra_facts=(), **kw):
 PROPS = {
     'C01': hp(['class', 'down', 'calls'], 'Lean: gate, protected_answers, excluded_passthrough, flag_origin, unauthenticated_redirects, and over every history of one browser: issued_only_by_login, forward_needs_login; tie: response class / downstream invocation / provider calls of every step; oracle: forwarded and not excluded => session valid by construction labels', extra_facts=[]),
     'C03': hp(['class', 'calls', 'loc', 'jar'], 'Lean: callback_binds, csrf_after_step, and over every history: params_of_latest_initiation, callback_completes_latest (state, nonce and verifier of the most recent initiation); initiation_stores_what_it_sends, consumed, replay_rejected, no_session_on_error, login_completes; tie: class, token-endpoint calls (code, verifier symbol, redirect_uri), Location parameters and the whole jar view after every step; oracle: a session is established only with state/nonce/challenge of the most recent initiation of that browser, replays contact nobody, values never repeat', extra_facts=['randomFromCryptoRand', 'nonceBytes', 'verifierBytes']),
-    'C04': hp(['class', 'calls', 'down'], 'Lean: session_continues (any later instance/time within the window), jar_fixed, session_continues_history (any sequence of later requests, each with its own instance), accept_interval; tie: class and provider calls; oracle: own untampered session with exp-now > grace and age <= 24 h must be forwarded with zero provider calls on every instance', extra_facts=['maxCookieSize', 'absoluteSessionTimeoutSec']),
+    'C04': hp(['class', 'calls', 'down'], 'Lean: session_continues (any later instance/time within the window), jar_fixed, session_continues_history (any sequence of later requests, each with its own instance), accept_interval; tie: class and provider calls; oracle: own untampered session with exp-now > grace and age <= 24 h must be forwarded with zero provider calls on every instance', extra_facts=['maxCookieSize', 'absoluteSessionTimeoutSec'], extra_runs=[dict(family='sched', diff=False)]),
     'C06': hp(['class', 'code', 'down'], 'Lean: isAllowedDomain_iff, rolesGate_iff, wrongly_typed_fails_closed, gate_every_forward, login_rejected; tie: class and status code; oracle: forwarded => reference domain predicate (regex + exact lookup) and reference role predicate on the token of this step'),
     'C08': hp(['class', 'code', 'calls', 'jar', 'hdrs'], 'Lean: no_refresh_without_token, refresh_completes, refresh_chain (any chain of successive refreshes), refreshed_session_holds, refresh_success, refresh_identity, refresh_grant_failed, refresh_bad_token_not_forwarded, refresh_never_5xx; tie: class, code, grant calls, stored tokens, forwarded identity; oracle: exactly one grant when due, forwarded identity and stored tokens from the new answer, 401/redirect and refresh-token removal on failure; family token-real: the default HTTP client against a loopback provider that drops a re-used connection after receiving a grant: still exactly one grant per request', extra_facts=[], extra_runs=[dict(family='token-real', diff=False)]),
     'C10': hp(['class', 'hdrs'], 'Lean: identity_from_session, identity_noninterference, fixed/template names protected, forwarded_headers; tie: the identity and templated headers seen downstream; oracle: each such header is the derived value or absent'),
@@ -182,7 +182,7 @@ TRANSLATED = {
     'C07': ['splitIntoChunks'],
     'C08': ['isUserAuthenticated'],
     'C11': ['determineScheme', 'determineHost'],
-    'C12': ['Cache.Set', 'Cache.Get', 'Cache.Delete', 'Cache.Cleanup', 'Cache.evictOldest', 'Cache.removeItem'],
+    'C12': ['Cache.Set', 'Cache.Get', 'Cache.Delete', 'Cache.Cleanup', 'Cache.evictOldest', 'Cache.removeItem', 'TokenCache.Set', 'TokenCache.Get', 'TokenCache.Delete'],
     'C13': ['Cache.Set', 'Cache.Get', 'Cache.Delete', 'Cache.Cleanup', 'Cache.evictOldest', 'Cache.removeItem'],
     'C14': ['VerifyToken', 'performPreVerificationChecks', 'cacheVerifiedToken', 'RevokeToken', 'TokenCache.Set', 'TokenCache.Get', 'TokenCache.Delete', 'the six methods of cache.go', 'VerifyJWTSignatureAndClaims'],
     'C15': ['isLocalRedirectTarget', 'buildFullURL', 'determineScheme', 'determineHost'],
